@@ -4,4 +4,5 @@ CONSTANTS
   MaxExtra = 0
   AttrModes <- ModesQuick
   VarNone = FALSE
+  ReqVersions <- ReqQuick
 CHECK_DEADLOCK FALSE
